@@ -44,6 +44,8 @@ type Conf struct {
 	MinSpaceRequired float64 `json:"min_space_required,omitempty"`
 	// WARCTempDir: --warc-temp-dir ("" = the default, <job>/temp)
 	WARCTempDir string `json:"warc_temp_dir,omitempty"`
+	// DomainsCrawl: --domains-crawl patterns
+	DomainsCrawl []string `json:"domains_crawl,omitempty"`
 }
 
 func (c Conf) String() string {
@@ -98,6 +100,7 @@ func (c Conf) Build() *config.Config {
 		cfg.MinSpaceRequired = c.MinSpaceRequired
 	}
 	cfg.WARCTempDir = c.WARCTempDir
+	cfg.DomainsCrawl = c.DomainsCrawl
 	return cfg
 }
 
